@@ -64,6 +64,10 @@ NEEDED = {
  # round 4
  'C01-10': 'world G: world A in a group whose program fees the global fee admin switched off (C01 and C06)',
  'C02-10': 'forged root R3w: a bankruptcy one step away that wipes the bank out (debt of one and a half times all deposits)',
+ 'C02-12': 'forged root RMS: a migrated-away shell that picked up a deposit (as a liquidator can); closing it is one step away',
+ 'C03-10': 'fraction-directed roots: deposits and debts re-forged to end in a chosen fraction of a native unit (just above a whole number, either side of the 0.0001 dust threshold, one half, just below the next whole number)',
+ 'C03-11': 'root REM (rewards switched on for both sides, ten days of unclaimed rewards pending) in C03 and C02; a refused withdraw-all is re-sent with its bank still among the risk accounts',
+ 'C03-12': 'vault-side clause: what leaves the liquidity vault on a withdraw / borrow is at most the position debit',
  'C20-7': 'reserve-composition sweep: total liquidity = available + borrowed - fees with fees above the borrowed amount, fractional parts, through the real Kamino / Solend total-liquidity functions and conversions',
  'C08-7': '(caught by the sibling check C10: two start instructions in one transaction)',
  'C08-8': "C12 'nobody' cells: the permissionless staked-settings propagation aimed at ordinary banks",
